@@ -50,6 +50,30 @@ func main() {
 			}
 			fmt.Printf("%s: %s\n", n, e.ma.sets[e.w.funcs[n]])
 		}
+	case "reach":
+		e, err := newEngine("/repo", "/verif", "quick", patternsFor(""))
+		if err != nil {
+			fmt.Println(err)
+			os.Exit(1)
+		}
+		for _, fn := range e.reachable(os.Args[2:]) {
+			ct := ""
+			if e.w.db.Contracts[fn.String()] != nil {
+				ct = "contract"
+			}
+			if len(e.w.ifaceContractsFor(fn)) > 0 {
+				ct += " iface"
+			}
+			rec := ""
+			if e.w.recFuncs[fn] {
+				rec = "rec"
+			}
+			n := 0
+			for _, b := range fn.Blocks {
+				n += len(b.Instrs)
+			}
+			fmt.Printf("%-70s %5d %-4s %s\n", fn.String(), n, rec, ct)
+		}
 	default:
 		fmt.Fprintln(os.Stderr, "unknown command")
 		os.Exit(2)
